@@ -140,6 +140,11 @@ def run():
     c.validate(SPEC, "Trace_Undo", "Trace_Undo.cfg", shards, key, procs=4, timeout=2400, xmx="4g")
     name_violations(c)
     c.sample_from(shards[0], 4)
+    # what the operations MEAN (model layer only, never a verdict): Area.tla recomputes every area / row / column operation
+    n_before = len(c.reports)
+    from props import arealib
+    arealib.run_into(c, thorough)
+    area_reports, c.reports = c.reports[n_before:], c.reports[:n_before]
     summ = {}
     try:
         summ = json.load(open(trace.replace(".ndjson", "-summary.json")))
